@@ -185,26 +185,30 @@ Fixpoint add_metric (n : str) (m : dmetric) (fs : list family) : list family :=
 
 Definition strip (s suf : str) : str := firstn (length s - length suf) s.
 
+(* checkSuffixCollisions, first switch: newNameWithoutSuffix ("" when there is no magic suffix) *)
+Definition name_without_suffix (n : str) : str :=
+  if has_suffix n suf_count then strip n suf_count
+  else if has_suffix n suf_sum then strip n suf_sum
+  else if has_suffix n suf_bucket then strip n suf_bucket
+  else [].
+
+(* checkSuffixCollisions, "if newNameWithoutSuffix != """ block *)
+Definition suffix_first (new_name : str) (fs : list family) : option Z :=
+  match name_without_suffix new_name with
+  | [] => None
+  | w => match find_fam w fs with
+         | Some ex =>
+             if f_type ex =? ty_summary then
+               (if negb (has_suffix new_name suf_bucket) then Some e_suffix else None)
+             else if f_type ex =? ty_histogram then Some e_suffix
+             else None
+         | None => None
+         end
+  end.
+
 (* checkSuffixCollisions *)
 Definition check_suffix_collisions (new_name : str) (new_type : Z) (fs : list family) : option Z :=
-  let without :=
-    if has_suffix new_name suf_count then strip new_name suf_count
-    else if has_suffix new_name suf_sum then strip new_name suf_sum
-    else if has_suffix new_name suf_bucket then strip new_name suf_bucket
-    else [] in
-  let first :=
-    match without with
-    | [] => None
-    | _ => match find_fam without fs with
-           | Some ex =>
-               if f_type ex =? ty_summary then
-                 (if negb (has_suffix new_name suf_bucket) then Some e_suffix else None)
-               else if f_type ex =? ty_histogram then Some e_suffix
-               else None
-           | None => None
-           end
-    end in
-  match first with
+  match suffix_first new_name fs with
   | Some e => Some e
   | None =>
     if ((new_type =? ty_summary) || (new_type =? ty_histogram)) && has_fam (new_name ++ suf_count) fs then Some e_suffix
